@@ -58,6 +58,7 @@ import (
 	"verif/conv"
 	"verif/ev"
 	"verif/gen"
+	"verif/pgen"
 	"verif/ir"
 	"verif/ref"
 	"verif/sch"
@@ -386,13 +387,13 @@ func TestSoundness(t *testing.T) {
 			}
 		}
 		schemaHash := ir.Hash(s)
-		pathCache := map[int][]ppath{}
+		pathCache := pgen.Cache{}
 		reused := map[bool]*validate.Validator{true: validator(r, true), false: validator(r, false)}
 		before := map[bool][]*ir.Policy{}
 		for i := 0; i < nPolicies; i++ {
 			ei := rapid.IntRange(0, len(envs)-1).Draw(rt, "targetenv")
 			env := envs[ei]
-			p, slips := genPolicy(rt, rs, env, extAsCall, pathCache, ei)
+			p, slips := pgen.GenPolicy(rt, rs, env, extAsCall, pathCache, ei)
 			ops, usesSchema, opLabels := policyStats(p)
 			for _, strict := range []bool{true, false} {
 				mode := modeName(strict)
